@@ -8,3 +8,8 @@ t = names.signatures(fx)
 with open(names.TABLE, "w") as fh:
     json.dump(t, fh, indent=0, sort_keys=True)
 print("functions:", len(t), "bindings:", sum(len(v) for v in t.values()))
+
+from sa import inline
+with open(inline.PINNED, "w") as fh:
+    json.dump(sorted(fx["fns"]), fh, indent=0)
+print("pinned fns:", len(fx["fns"]))
